@@ -145,6 +145,7 @@ class C04(Check):
         'params before the first completed full read of the object at hand are not constrained (environments may learn params lazily); afterwards they must equal the params a fresh pipeline reports after its first read',
         'identity / python type of yielded objects is not constrained: contexts and actions are hardened (Dense->list, Sparse->dict), reward and '
         'feedback functions are compared through their values on the interaction\'s actions (probes 0,1,2.5 without actions), numbers by value',
+        'reward / feedback functions are evaluated by the reader on every action of every interaction it receives, in the order of the interaction\'s action list (a value that depends on the order of first evaluation, as Grounded feedback words do on HEAD, is not constrained)',
         'a pipeline whose FIRST read (fresh twin) raises is not type-compatible and is skipped (counted as rejected_pipelines)',
         'an exception from pickle.dumps/loads is an accepted rejection (the history continues on the unpickled object); what a successfully '
         'unpickled object yields is constrained',
